@@ -454,7 +454,11 @@ LEVEL_TEXT = ("Proved in Coq for all token lists: _consume_value_until returns a
               "group used as value is exactly the group (group_value_exact). The slice policy (throw/noexcept/decltype/array size "
               "drop exactly the outer delimiters, nothing else slices) is a finite check over the value-position table "
               "regenerated from parser.py's AST (positions_policy). Differential run ties the hand model to the code; "
-              "24 value-bearing positions x generated expressions are searched through parse_string. The full statement is false for "
+              "24 value-bearing positions x generated expressions are searched through parse_string. Requires-clauses (the bespoke loop of "
+              "_parse_requires) are modelled separately (Parse/Requires.v) and proved exact for clauses of any length of parenthesized / "
+              "specialized-name / decltype primaries joined by one- or two-token operators, ended by a non-operator or a lone '=' "
+              "(requires_clause_exact_for_unqualified_names; requires_clause_value_partial states the missing '::' of qualified names, F29), "
+              "tied by calling the real _parse_requires and searched in 9 positions x endings. The full statement is false for "
               "a depth-0 '<' used as comparison (lt_operator_refuted, known finding F6).")
 LEVEL_NOTE = ("Trusted: Coq kernel, translator (tables + AST scan of value positions), extraction, driver, harness. Bespoke collectors "
               "(requires-clauses, pragma loop, sizeof...) are only searched. F6 ('a < b' at depth 0) and F8 (']]') are known findings.")
